@@ -214,14 +214,23 @@ impl Property for StoreProp {
             "C17" => {
                 ops.push(Op::S(SOp::Import { n: 0, write: true }));
                 ops.push(Op::S(SOp::Import { n: 1, write: false }));
-                if rng.chance(1, 4) {
+                let via_actor = rng.chance(1, 4);
+                if via_actor {
                     ops.push(Op::S(SOp::ViaActor));
                 }
                 let npeers = rng.range(1, 9);
                 let mut t = 1000u64;
                 for _ in 0..rng.range(1, 30 * scale) {
                     t += 1 + rng.below(5) as u64;
-                    match rng.below(12) {
+                    match rng.below(14) {
+                        // opening (also of the unknown document, which fails) and closing around registrations
+                        // (at the store only: behind the actor the documents are opened by the requests themselves)
+                        12 | 13 if via_actor => ops.push(Op::S(SOp::Observe { n: rng.below(3) })),
+                        12 => {
+                            let n = *rng.pick(&[2usize, 2, 0, 1]);
+                            ops.push(Op::S(if rng.chance(1, 2) { SOp::OpenRep { n } } else { SOp::OpenInfo { n } }));
+                        }
+                        13 => ops.push(Op::S(SOp::CloseRep { n: rng.below(3) })),
                         0..=8 => ops.push(Op::S(SOp::Peer { n: *rng.pick(&[0usize, 0, 0, 1, 2]), t, p: rng.below(npeers) as u8 })),
                         9 => ops.push(Op::S(SOp::Reopen)),
                         11 if rng.chance(1, 2) => {
@@ -250,7 +259,9 @@ impl Property for StoreProp {
                     ops.push(Op::S(SOp::ViaActor));
                 }
                 for _ in 0..rng.range(3, 14 * scale) {
-                    match rng.below(12) {
+                    match rng.below(15) {
+                        // a remote entry arrives: the download flag of its event follows the document's policy
+                        12..=14 => ops.push(Op::S(SOp::Put { n: rng.below(2), a: rng.below(2), key: gen_key(rng), c: Some(rng.below(3)), ts: *rng.pick(&[5u64, 6, 7, 9, 10, 11]) })),
                         0..=2 => ops.push(Op::S(SOp::SetPolicy { n: rng.below(3), pol: gen_pol(rng) })),
                         3 => ops.push(Op::S(SOp::Observe { n: rng.below(3) })),
                         4 => ops.push(Op::S(SOp::Reopen)),
